@@ -287,6 +287,17 @@ def _short(v):
     return str(v)[:80]
 
 
+def file_modes(root):
+    """path -> permission bits of every regular file (what a rewrite of a file must keep)."""
+    out = {}
+    for dp, dns, fns in os.walk(root):
+        for n in fns:
+            p = os.path.join(dp, n)
+            if not os.path.islink(p):
+                out[os.path.relpath(p, root).replace(os.sep, "/")] = os.stat(p).st_mode & 0o777
+    return out
+
+
 def write_tree(root, entries):
     """entries: list of {"p": path, "dir": True} | {"p": path, "text", "nl", "enc"}"""
     os.makedirs(root, exist_ok=True)
@@ -298,6 +309,8 @@ def write_tree(root, entries):
             os.makedirs(os.path.dirname(p), exist_ok=True)
             with open(p, "wb") as f:
                 f.write(entry_bytes(e))
+            if e.get("mode"):
+                os.chmod(p, e["mode"])
 
 
 NL = {"lf": "\n", "crlf": "\r\n", "cr": "\r"}
